@@ -41,7 +41,7 @@ META = {
             "(prefix_* theorems document the two crash windows and the lock leak of the tree before the fix commits). Every run re-proves them, "
             "records the real write log of generated histories, checks that the writer model reproduces it event by event and that Model.recover equals the "
             "outcome of the real NewBlockChain on EVERY prefix, judges every prefix directly against the property, and injects a failure into every write.",
-    "note": GEN + " Found and fixed through this check (fix commits 141a732, 130fc0e, deec78d, 69e8ea6): reorg re-pointed the head markers before the incoming "
+    "note": GEN + " Found and fixed through this check (fix commits 141a732, 130fc0e, deec78d, 69e8ea6; the writer model follows 3f14ce8: insert cleans the index inside its batch): reorg re-pointed the head markers before the incoming "
             "block's batch (reopen panicked), insert wrote the canonical number before LastBlock (index disagreed for one write), trie.Database.Commit "
             "leaked its read lock when a preimage flush failed; the prefix_* theorems document the pre-fix windows.",
 }
